@@ -4,8 +4,8 @@ The five variable-path instructions of the VM (tera/src/vm/interpreter.rs):
 `LoadPath` (773-820), `WritePath` (821-883) — just enough of the machine to compare a fused
 instruction with the sequence it replaces: a value stack, one abstract "rest of the state" `σ`
 (variables, loops, capture buffers, output), and as parameters what these arms call:
-`State::get_value`, `State::dump_context`, `Value::get_attr`, `Value::is_undefined`, and the
-format-escape-write tail shared by `WriteTop` and `WritePath`.
+`State::get_value`, `State::dump_context`, `Value::get_attr`, `Value::is_undefined`,
+`Value::is_safe`, the autoescape flag and the format-(escape)-write sink.
 
 Errors carry no message or span (C09 compares ok-vs-error only).  A stack slot carries, next to
 the value, whether `Chunk::expand_span` of its span range finds a span (the `rendering_error!`
@@ -28,9 +28,19 @@ structure Env (V σ : Type) where
   dumpContext : σ → V
   /-- `Value::get_attr(attr)` -/
   getAttr : V → String → Option V
-  /-- lines 335-354 = 864-882: format the value, escape it unless safe or autoescape is off, append
-  to the innermost capture buffer or to the output; `none` = the writer failed (`?`) -/
-  write : V → σ → Option σ
+  /-- `Value::is_safe` (a safe string, or a kind that never needs escaping) -/
+  isSafe : V → Bool
+  /-- `self.autoescape_enabled()` -/
+  autoescape : Bool
+  /-- format the value, pass it through the escape function iff the flag is set, append to the
+  innermost capture buffer or to the output; `none` = the writer failed (`?`) -/
+  emit : Bool → V → σ → Option σ
+
+/-- The tail shared by `WriteTop` (lines 335-354) and `WritePath` (864-882):
+`if !self.autoescape_enabled() || val.is_safe() { val.format(sink) } else { escape_fn(format(val), sink) }`
+— the escape decision is taken on the value that is written. -/
+def Env.write {V σ : Type} (env : Env V σ) (v : V) (s : σ) : Option σ :=
+  env.emit (env.autoescape && !env.isSafe v) v s
 
 inductive Res (V σ : Type) where
   | ok (stack : List (V × Bool)) (s : σ)
